@@ -140,10 +140,15 @@ func (o *rx) Evaluate(tx plugintypes.TransactionState, value string) bool {
 	// The \n guard protects against multi-line inputs where (?m)$ matches
 	// before a newline (e.g. "Upload\nmore" would satisfy (?sm)^Upload$).
 	if o.exactMatch != "" && !strings.ContainsRune(value, '\n') {
+		matched := value == o.exactMatch
 		if o.exactMatchCI {
-			return strings.EqualFold(value, o.exactMatch)
+			matched = strings.EqualFold(value, o.exactMatch)
 		}
-		return value == o.exactMatch
+		if matched && tx.Capturing() {
+			// like the regex path: group 0 is the whole match, which here is the whole value
+			tx.CaptureField(0, value)
+		}
+		return matched
 	}
 
 	if tx.Capturing() {
